@@ -190,6 +190,19 @@ func blsCase(x *hx.Ctx, sig string) {
 	x.Err("-sig", sch.Verify(pub, msg, func() []byte { b, _ := sigG.Point().Neg(S).MarshalBinary(); return b }()))
 	x.Err("truncated", sch.Verify(pub, msg, s[:len(s)-1]))
 	x.Err("empty sig", sch.Verify(pub, msg, nil))
+	// one scheme object, one message buffer reused by the caller: what is verified is the CONTENT of the buffer at the
+	// time of the call (a scheme must not remember a message by reference)
+	buf := []byte("buffer content 1")
+	sb1, err := sch.Sign(priv, buf)
+	x.NoErr("Sign buffer content 1", err)
+	x.NoErr("Verify buffer content 1", sch.Verify(pub, buf, sb1))
+	copy(buf, "buffer content 2")
+	x.Err("signature on the old content of a reused buffer", sch.Verify(pub, buf, sb1))
+	sb2, err := sch.Sign(priv, buf)
+	x.NoErr("Sign buffer content 2", err)
+	x.NoErr("Verify buffer content 2 (same buffer, same scheme object)", sch.Verify(pub, buf, sb2))
+	x.Err("signature on the new content against the old content", sch.Verify(pub, []byte("buffer content 1"), sb2))
+	x.NoErr("Verify the first message again", sch.Verify(pub, msg, s))
 	// never: e(H, X) == e(S+d*B, B) for d != 0
 	d := sigG.Scalar().Pick(p.RandomStream())
 	Sd := sigG.Point().Add(S, sigG.Point().Mul(d, nil))
